@@ -8,6 +8,9 @@ func init() {
 	vfHarnesses["C02_contains_within"] = vfhC02ContainsWithin
 	vfHarnesses["C02_transpose"] = vfhC02Transpose
 	vfHarnesses["C02_relate_empty"] = vfhC02RelateEmpty
+	vfHarnesses["C02_relate_point_point"] = vfhC02RelatePointPoint
+	vfHarnesses["C02_relate_point_line"] = vfhC02RelatePointLine
+	vfHarnesses["C02_relate_mod2"] = vfhC02RelateMod2
 }
 
 func vfIsMatrixChar(b byte) bool {
@@ -173,5 +176,92 @@ func vfhC02RelateEmpty() {
 	copy(t[:], rev)
 	t.transpose()
 	vfAssert(t == m, "Relate(b,a) is the transpose of Relate(a,b)")
+	vfReach("end")
+}
+
+func vfTransposeCode(m string) string {
+	var t matrix
+	copy(t[:], m)
+	t.transpose()
+	return t.code()
+}
+
+// Relate of two Points through the real overlay.
+func vfhC02RelatePointPoint() {
+	p, q := vfPtO("p"), vfPtO("q")
+	a, b := vfPointXY(p).AsGeometry(), vfPointXY(q).AsGeometry()
+	want := "FF0FFF0F2"
+	if vfEqXY(p, q) {
+		want = "0FFFFFFF2"
+		vfReach("equal")
+	}
+	got, err := Relate(a, b)
+	vfAssert(err == nil && got == want, "DE-9IM of two points")
+	rev, err := Relate(b, a)
+	vfAssert(err == nil && rev == vfTransposeCode(got), "Relate(b,a) is the transpose")
+	eq, _ := Equals(a, b)
+	dj, _ := Disjoint(a, b)
+	vfAssert(eq == vfEqXY(p, q) && dj == !vfEqXY(p, q), "Equals / Disjoint follow")
+	vfAssert(dj == !Intersects(a, b), "Disjoint is the negation of Intersects")
+	vfReach("end")
+}
+
+// Relate of a Point and a 2-point LineString through the real overlay.
+func vfhC02RelatePointLine() {
+	p, a, b := vfPtO("p"), vfPtO("a"), vfPtO("b")
+	vfAssume(!vfEqXY(a, b))
+	gp, gl := vfPointXY(p).AsGeometry(), vfLineXY(a, b).AsGeometry()
+	var want string
+	switch {
+	case vfOr(vfEqXY(p, a), vfEqXY(p, b)):
+		want = "F0FFFF102" // on the boundary (an end point)
+		vfReach("endpoint")
+	case vfOnSeg(p, a, b):
+		want = "0FFFFF102" // in the interior
+		vfReach("interior")
+	default:
+		want = "FF0FFF102"
+		vfReach("outside")
+	}
+	got, err := Relate(gp, gl)
+	vfAssert(err == nil && got == want, "DE-9IM of a point and a line")
+	rev, err := Relate(gl, gp)
+	vfAssert(err == nil && rev == vfTransposeCode(got), "Relate(b,a) is the transpose")
+	dj, _ := Disjoint(gp, gl)
+	vfAssert(dj == !Intersects(gp, gl), "Disjoint is the negation of Intersects")
+	vfReach("end")
+}
+
+// The mod-2 rule through Relate: three lines of a MultiLineString meet at X -
+// two end there, one passes through - in every member order; X (two end
+// points: even) is interior, so Relate(mls, POINT(X)) = 0F1FF0FF2. The shape
+// is fixed, its position X is a symbolic lattice point.
+func vfhC02RelateMod2() {
+	x := vfPtO("x")
+	vfAssume(vfAnd(vfAnd(x.X > -500, x.X < 500), vfAnd(x.Y > -500, x.Y < 500)))
+	l1 := vfLineXY(XY{x.X - 1, x.Y}, x)
+	l2 := vfLineXY(XY{x.X, x.Y + 1}, x, XY{x.X, x.Y - 1})
+	l3 := vfLineXY(XY{x.X + 1, x.Y}, x)
+	var lines []LineString
+	switch vfInt("order", 0, 5) {
+	case 0:
+		lines = []LineString{l1, l2, l3}
+	case 1:
+		lines = []LineString{l1, l3, l2}
+	case 2:
+		lines = []LineString{l2, l1, l3}
+	case 3:
+		lines = []LineString{l2, l3, l1}
+	case 4:
+		lines = []LineString{l3, l1, l2}
+	default:
+		lines = []LineString{l3, l2, l1}
+	}
+	mls := NewMultiLineString(lines).AsGeometry()
+	pt := vfPointXY(x).AsGeometry()
+	got, err := Relate(mls, pt)
+	vfAssert(err == nil && got == "0F1FF0FF2", "X has an even number of end points: it is interior (mod-2 rule)")
+	touches, _ := Touches(mls, pt)
+	vfAssert(!touches, "so the point does not merely touch the lines")
 	vfReach("end")
 }
